@@ -28,6 +28,9 @@ WORKER = "internal/listobjects/pipeline/internal/worker"
 def c21(tier, seed):
     q = tier == "quick"
     jobs = [J(WORKER, "VerifB21CycleTeardown", members=2, budget=0, hops=1, max_paths=20000)]
+    # the real Core.ProcessSender: every received message is released (Done) exactly once whatever processing does
+    jobs.append(J(WORKER, "VerifB21bMessagesReleased", msgs=2, procs=1, max_paths=20000))
+    jobs.append(J(WORKER, "VerifB21bMessagesReleased", msgs=2 if q else 3, procs=2, max_paths=200000))
     if not q:
         jobs.append(J(WORKER, "VerifB21CycleTeardown", members=2, budget=1, hops=1, max_paths=600000, job_timeout_s=3000))
         jobs.append(J(WORKER, "VerifB21CycleTeardown", members=3, budget=0, hops=1, max_paths=600000, job_timeout_s=3000))
@@ -43,10 +46,10 @@ _SCHED_ASSUME = [
 SPEC = {
     "C21": {
         "jobs": c21,
-        "level_text": "bounded exploration of symbolic schedules of the real cycle-teardown code (track.StatusPool, track.Reporter, worker.Membership, worker.CycleGroup.Join): per cycle member a MAIN thread (forward input with Inc-before-enqueue, SignalReady, WaitForAllReady, leader-first ordered clean-up through Sleep/Wake) and a CYCLIC thread (drain inbox, optionally forward, Dec) mirror Basic.Execute; the thread to run at each scheduling point is a forked solver variable. Obligations on every schedule: WaitForAllReady returns only when all members signalled and no message is in flight; nothing is enqueued on a cleaned-up inbox; every inbox is empty at the end; every thread finishes (no lost wake-up). Counterexample schedules replay on the real code through verifhook points.",
-        "level_note": "bounds: 2 members (4 threads), 0..1 initial messages per member (solver-chosen), 1 forwarding hop, non-preemptive schedules (budget 0) in quick; budget 1 and 3 members in thorough. The message plumbing (Inc before enqueue, Dec on Done) is mirrored by the harness from pipeline.createWorker's MsgFunc, not executed from it; Core.ProcessSender, mediums and the interpreter are outside.",
+        "level_text": "bounded exploration of symbolic schedules of the real cycle-teardown code (track.StatusPool, track.Reporter, worker.Membership, worker.CycleGroup.Join): per cycle member a MAIN thread (forward input with Inc-before-enqueue, SignalReady, WaitForAllReady, leader-first ordered clean-up through Sleep/Wake) and a CYCLIC thread (drain inbox, optionally forward, Dec) mirror Basic.Execute; the thread to run at each scheduling point is a forked solver variable. Obligations on every schedule: WaitForAllReady returns only when all members signalled and no message is in flight; nothing is enqueued on a cleaned-up inbox; every inbox is empty at the end; every thread finishes (no lost wake-up). Counterexample schedules replay on the real code through verifhook points. (B21b) the real Core.ProcessSender (processing goroutines, hand-over channel, deferred drain) on a harness sender: per message the processor succeeds / fails / fails with a cancellation error / panics, the request is cancelled before a solver-chosen delivery; afterwards every delivered message has been released exactly once and the sender is drained - a message that is never released keeps its cycle group's in-flight count above zero for ever.",
+        "level_note": "bounds: 2 members (4 threads), 0..1 initial messages per member (solver-chosen), 1 forwarding hop, non-preemptive schedules (budget 0) in quick; budget 1 and 3 members in thorough. The message plumbing (Inc before enqueue, Dec on Done) is mirrored by the harness from pipeline.createWorker's MsgFunc, not executed from it; mediums and the interpreter are outside. B21b: 2 (3) messages, 1-2 processing goroutines under the engine's cooperative schedule; an error reported by the worker cancels the request (what Pipeline.Recv/Close do).",
         "assumptions": _SCHED_ASSUME,
-        "outside": ["the real Core.ProcessSender / mediums / message pool", "more than 3 members", "context cancellation during teardown"],
+        "outside": ["mediums / message pool / interpreter", "more than 3 members", "context cancellation during the ordered teardown itself", "preemptive schedules of ProcessSender's goroutines"],
     },
     "C22": {
         "jobs": c22,
